@@ -368,7 +368,7 @@ pub fn split(s: &str) -> Result<Vec<Arg>, ParseError> {
                 Some(_) => Comment,
             },
         };
-        pos += 1;
+        pos += c.map_or(1, char::len_utf8);
     }
 
     Ok(words)
